@@ -37,6 +37,12 @@ def entries(tier):
         graph=True),
       P(name='multiplex 2 inputs fail', cfg=P(prods={'p1': (1, 1), 'p2': (2, 0)}, cons={'c1': ('diter', -1)}, cap=1),
         graph=True),
+      P(name='multiplex 3 inputs pool1 cap1', cfg=P(prods={'p1': (1, 0), 'p2': (1, 0), 'p3': (1, 0)}, cons={'c1': ('diter', -1)},
+                                                    cap=1, pool=1), graph=True),
+      P(name='multiplex 2 inputs (2,2) cap1 stop-at-0', cfg=P(prods={'p1': (2, 0), 'p2': (2, 0)}, cons={'c1': ('diter', 0)}, cap=1),
+        graph=True, budget_x=3),
+      P(name='multiplex 3 inputs (2,1,1) cap1 stop-at-0', cfg=P(prods={'p1': (2, 0), 'p2': (1, 0), 'p3': (1, 0)},
+                                                                cons={'c1': ('diter', 0)}, cap=1), graph=True, budget_x=2),
       P(name='shared 1 worker unbounded', cfg=P(prods={'p1': (0, 0)}, cons={'c1': ('diter', -1)}, cap=0, shared=(3, 0)),
         graph=True),
   ]
@@ -65,7 +71,9 @@ def sweep(chk):
     n_inputs = rnd.choice([1, 1, 2, 3])
     buf = rnd.choice([0, 1, par * 3])
     lens = [rnd.choice([0, 1, 2, 4]) for _ in range(n_inputs)]
-    api = rnd.choice(['piter', 'pmap', 'multiplex']) if n_inputs == 1 else rnd.choice(['piter', 'multiplex'])
+    api = rnd.choice(['piter', 'pmap', 'multiplex']) if n_inputs == 1 else rnd.choice(['piter', 'multiplex', 'pmux', 'pmux'])
+    if api == 'pmux':
+      par = rnd.choice([1, 2])        # pool size, possibly smaller than the number of inputs
     stop_after = rnd.choice([None, None, 0, 1, 2])
     fail_at = rnd.choice([None, None, None, 1, 2])
     seed = chk.seed * 7919 + i
@@ -95,8 +103,13 @@ def _run_api(api, par, lens, buf, stop_after, fail_at, seed):
 
       def body():
         pool = iter_utils.futures.ThreadPoolExecutor(max_workers=max(par, len(inputs)) + 1, thread_name_prefix='w#')
+        if api == 'pmux':
+          pool = iter_utils.futures.ThreadPoolExecutor(max_workers=par, thread_name_prefix='w#')
         try:
-          if api == 'pmap':
+          if api == 'pmux':
+            it = iter(iter_utils.piter_multiplex([map(fn, x) for x in inputs], pool, buffer_size=buf))
+            mi = None
+          elif api == 'pmap':
             it = iter_utils.pmap(fn, inputs[0], max_parallism=par, buffer_size=buf, thread_pool=pool)
             it = iter(it)
             mi = None
@@ -154,7 +167,11 @@ def _run_api(api, par, lens, buf, stop_after, fail_at, seed):
 
 
 def body(chk):
-  qprops.run(chk, entries(chk.tier), budget_graph=5.0, explore_runs=150, random_runs=60)
+  from harness import qconfig
+  qprops.run(chk, entries(chk.tier), budget_graph=5.0, explore_runs=150, random_runs=60,
+             negative=[('multiplex 3 inputs pool1, max_enqueuer declared as the pool size',
+                        P(prods={'p1': (1, 0), 'p2': (1, 0), 'p3': (1, 0)}, cons={'c1': ('diter', -1)}, cap=1, pool=1, declared=1,
+                          neg_fixes=set(qconfig.ALL_FIXES)), 'invariant')])
   sweep(chk)
   chk.assumptions += [
       'the executor is scheduler-managed (honours max_workers, shutdown(wait) blocks until its workers finished)',
